@@ -12,6 +12,7 @@ analysis.  Actions:
   ("ssync", stream)       cudaStreamSynchronize + 'Stream Sync' record on the stream
   ("dsync",)              cudaDeviceSynchronize + 'Context Sync' record (stream -1)
   ("step", k)             open a ProfilerStep#k annotation (closed by ("end",))
+  ("anno", name)          open a user annotation nested inside an operator (closed by ("end",))
 """
 from __future__ import annotations
 
@@ -34,7 +35,7 @@ def run(program: Sequence[Sequence[Any]], prof: Dict[str, Any]) -> List[Dict[str
     nk = 0
     for a in program:
         kind = a[0]
-        if kind in ("op", "step"):
+        if kind in ("op", "step", "anno"):
             stack.append((len(evs), a, t))
             evs.append(None)
             t += oc
@@ -44,6 +45,8 @@ def run(program: Sequence[Sequence[Any]], prof: Dict[str, Any]) -> List[Dict[str
                 t += 1  # host events have positive duration
             if oa[0] == "op":
                 evs[idx] = kineto.cpu_op(oa[1], st, t - st, ext=idx)
+            elif oa[0] == "anno":
+                evs[idx] = kineto.annotation(oa[1], st, t - st)
             else:
                 evs[idx] = kineto.step(oa[1], st, t - st)
             t += gap
@@ -99,7 +102,12 @@ def programs(L: int, with_ops: bool = True):
             prog.append(("op", f"aten::op{n_ops}"))
             rec(prog, n_act, depth + 1, n_ops + 1)
             prog.pop()
-        if depth > 0 and prog[-1][0] != "op":
+            if depth == 1:
+                # a user annotation nested inside an operator (host event that is no graph node)
+                prog.append(("anno", "my_region"))
+                rec(prog, n_act, depth + 1, n_ops + 1)
+                prog.pop()
+        if depth > 0 and prog[-1][0] not in ("op", "anno"):
             prog.append(("end",))
             rec(prog, n_act, depth - 1, n_ops)
             prog.pop()
